@@ -222,7 +222,7 @@ func c04(w *core.World, r *core.Report) {
 						if len(core.LoadsOfField(f, strings.TrimPrefix(k, "field "))) > 0 {
 							found = core.FuncKey(f)
 						}
-					} else if len(core.CallsTo(f, k)) > 0 {
+					} else if len(core.OwnCallsTo(f, k)) > 0 {
 						found = core.FuncKey(f)
 					}
 				}
@@ -244,7 +244,7 @@ func c04(w *core.World, r *core.Report) {
 				continue
 			}
 			n := 0
-			for _, c := range core.CallsTo(f, kLVGHP) {
+			for _, c := range core.OwnCallsTo(f, kLVGHP) {
 				a := core.CallArgs(c)
 				if len(a) != 2 {
 					continue
